@@ -12,7 +12,9 @@ vars == <<kind, enc, code, cm, fmt, stage, cps>>
 \* targets: BMP char, non-ASCII BMP, supplementary plane (surrogate pair), ligature expansion, base + combining mark
 \* ... and targets whose last UTF-16 unit sits just below a multiple of 256, so that the increments of a range
 \* carry out of its low byte: one unit (U+00FF), a surrogate pair (U+1D4FE = D835 DCFE), a two-character expansion
-TargetsMC == { <<66>>, <<8364>>, <<128512>>, <<102, 102, 105>>, <<101, 769>>, <<255>>, <<120062>>, <<102, 511>> }
+\* ... and a letter and a combining mark as targets of codes of their own (the mark composes with whatever letter the
+\* code shown before it gave)
+TargetsMC == { <<66>>, <<8364>>, <<128512>>, <<102, 102, 105>>, <<101, 769>>, <<255>>, <<120062>>, <<102, 511>>, <<101>>, <<769>> }
 \* (a range target's last UTF-16 unit is incremented, so 3-code ranges need headroom: FFFD.., DFFD..)
 TargetsBig == TargetsMC \cup { <<65533>>, <<1114109>>, <<117, 776>>, <<57344>> }
 
